@@ -84,10 +84,19 @@ def handle : Handler := fun op inp impl => do
       (match pre.ro.sub with | some s => if pre.gone then [] else [s!"state:{RV.Drv.RolloutSM.stateStr s.state}"] | none => [])
     let fwd := match jopt inp "fwd" with | some (.bool b) => b | _ => false
     let del := match jopt inp "del" with | some (.bool b) => b | _ => false
+    -- scope of the supersession theorems: the harness says the history so far was legal for the forward theorems; the driver
+    -- itself decides whether THIS label is legal (`legalS pre`), the harness carries the verdict forward (`sup` of the next line)
+    let supIn := match jopt inp "sup" with | some (.bool b) => b | _ => false
+    let sup := supIn && (match labelOf lab with | some l => RV.Oracle.ClosedLoop.legalS pre l | none => true)
     let implPanic := (jopt impl "panic").isSome
     let holds := if implPanic then [("C09.loop_total", false), ("C06.loop_total", false)] else
-      RV.Oracle.ClosedLoop.stateOracles post fwd del ++ RV.Oracle.ClosedLoop.stepOracles pre lab post fwd
-    let tags := (if RV.Oracle.ClosedLoop.gSupersedeRace post then ["guard:supersedeRace"] else []) ++ tags
+      RV.Oracle.ClosedLoop.stateOracles post fwd del sup ++ RV.Oracle.ClosedLoop.stepOracles pre lab post fwd
+    -- known finding supersedeBeforeInit: a release was pushed while the BatchRelease had not recorded its revision (history flag
+    -- from the harness) and the rollout has not taken the new revision up yet (state)
+    let early := match jopt inp "earlyRelease" with | some (.bool b) => b | _ => false
+    let tags := (if early && RV.Oracle.ClosedLoop.superseding post then ["guard:supersedeBeforeInit"] else []) ++
+      (if RV.Oracle.ClosedLoop.superseding post then ["superseding"] else []) ++ tags
+    let tags := (if sup && !fwd then ["scope:sup", if RV.Oracle.ClosedLoop.resetInv post then "resetInv:holds" else "resetInv:no"] else []) ++ tags
     let tags := (if fwd then "scope:fwd" else if del then "scope:del" else "scope:any") :: (if del then [if RV.Oracle.ClosedLoop.delInv post then "delInv:holds" else "delInv:fails"] else []) ++ (if RV.Oracle.ClosedLoop.fwdInv post then "fwdInv:holds" else "fwdInv:fails") :: tags
     match labelOf lab with
     | none => return { model := .null, holds := holds, tags := "uncompared" :: tags }
